@@ -301,7 +301,8 @@ def _safe_remove(el: etree.Element):
 
 
 def _id_of_target(url):
-    match = re.match(r"^url[(]#([\w-]+)[)]$", url)
+    # ids may contain any XML name character; a paint may carry a fallback ("url(#a) red")
+    match = re.match(r"^url[(]#([\w.:-]+)[)](\s+\S+)?$", url)
     if not match:
         raise ValueError(f'Unrecognized url "{url}"')
     return match.group(1)
